@@ -124,9 +124,9 @@ RegDepIns == { Lw("t0", "a0", 0), Li("t0", 5), Addi("t0", "t0", 1), AddI("t1", "
                AddI("t2", "t1", "t0"), I("mul", "t3", "t0", "t0", 0, 0),
                Sw("t1", "a1", 64),    \* a store miss keeps the write path busy while registers are produced and consumed
                I("mv", "t1", "t1", "zero", 0, 0),    \* a self-move still is a pending write of its register
-               Addi("a0", "a0", 0), Lh("t1", "a0", 2),   \* the base register of a load is produced by the instruction before it
+               Addi("a0", "a0", 4), Lh("t1", "a0", 2),   \* the base register of a load is produced by the instruction before it
                Addi("zero", "zero", 0), I("sub", "t2", "zero", "t1", 0, 0) }   \* a write to the zero register, a reader of zero and of a pending register
-RegDepCore == RegDepIns \ { Addi("a0", "a0", 0), Lh("t1", "a0", 2), I("mv", "t1", "t1", "zero", 0, 0), Addi("zero", "zero", 0), I("sub", "t2", "zero", "t1", 0, 0) }
+RegDepCore == RegDepIns \ { Addi("a0", "a0", 4), Lh("t1", "a0", 2), I("mv", "t1", "t1", "zero", 0, 0), Addi("zero", "zero", 0), I("sub", "t2", "zero", "t1", 0, 0) }
 (* all sequences up to 3 over every template; the thorough tier adds length 4 over the core templates *)
 RegDepCases == { <<s, img>> : s \in UpTo(RegDepIns, 3) \cup (IF Size = "large" THEN SeqOver(RegDepCore, 4) ELSE {}), img \in {"ramp"} }
 RegDepCase(x) ==
